@@ -82,6 +82,10 @@ def ill_formed_variants(sql, rnd):
     if re.match(r"\s*\(?\s*(select|with|insert|update|delete)\b", sql, re.I) and not re.search(r"\binterval\b", sql, re.I):
         for tail in (" +", " and", " or", " =", " between 1 and", " not", " like", " in", " ( ", " where", " join", " order by", " group by", " union", " case when"):
             out.append(("dangling operator or keyword", sql.rstrip().rstrip(";") + tail))
+        # a ternary operator without its second keyword, in an expression position at the very end
+        if re.search(r"\bwhere\b[^()]*$", sql, re.I) and not re.search(r"\b(order|group|limit|offset|fetch|for|union|returning|having|window|qualify)\b[^()]*$", sql, re.I):
+            for tail in (" between 1", " not between 2"):
+                out.append(("between without and", sql.rstrip().rstrip(";") + tail))
     return out
 
 
@@ -146,6 +150,10 @@ def run(ctx):
             if certainly_bad and isinstance(o[1], dict) and "returning" in o[1] and how == "dangling operator or keyword" and "C14:returning-without-keyword" in known:
                 k = known["C14:returning-without-keyword"]
                 ctx.known("C14:returning-without-keyword", "%s e.g. %s" % (k["what"], k["witness"]))
+                return
+            if certainly_bad and how == "between without and" and "C14:between-without-and" in known:
+                k = known["C14:between-without-and"]
+                ctx.known("C14:between-without-and", "%s e.g. %s" % (k["what"], k["witness"]))
                 return
             if certainly_bad:
                 ctx.violation("input", dict(entry=entry, sql=sql, mutation=how, returned=short(o[1], 600), requires="ParseException: the input is not a complete statement"))
